@@ -109,8 +109,8 @@ def _wait_cls(p, ops):
 
 
 def gen_cases(rng, tier):
-    n_wait = {"quick": 1300, "thorough": 40000, "search": 1500}[tier]
-    n_procs = {"quick": 260, "thorough": 7000, "search": 300}[tier]
+    n_wait = {"quick": 1000, "thorough": 16000, "search": 1200}[tier]
+    n_procs = {"quick": 200, "thorough": 2500, "search": 250}[tier]
     perm_max = {"quick": 3, "thorough": 4, "search": 3}[tier]
     cases = []
     # exhaustive status decoding
@@ -352,12 +352,12 @@ MANIFEST = {
             "status decoding (code c -> c, signal s -> -s); a returned status/None is never early; TimeoutExpired(timeout, pid) only at or after "
             "the deadline, less than 40 ms late, and -- on EINTR-free schedules -- with the process alive (the EINTR case is refuted with a "
             "witness: known finding); the k-th sleep is min(2^k/10000, 1/25), timeout=0 never sleeps, negative timeout -> ValueError; "
-            "ceil(25*timeout)+14+#EINTR loop steps suffice; the cached value is returned without a kernel call; wait_procs partitions its "
+            "no failure other than ValueError for a negative timeout / pid <= 0, a hang only for timeout=None on a child that never ends; the cached value is returned without a kernel call for any kernel; wait_procs partitions its "
             "input, sets returncode and calls the callback exactly once per gone process and returns before timeout + 40 ms, for every "
             "iteration order. The model is tied to the code by running the real psutil over a virtual kernel/clock on placements of the exit "
             "instant on and around every polling instant and the deadline and comparing outcome, every sleep() argument, the return instant "
             "and the waitpid-call count.",
-    "note": "Trusted: Coq kernel + vm_compute; hand-written model coq/C15/Model.v (tied by the correspondence run only); kernel semantics in "
+    "note": "Not proved: the fuel (termination) bound of the polling loops -- theorems hold for every fuel, whatever came back. Trusted: Coq kernel + vm_compute; hand-written model coq/C15/Model.v (tied by the correspondence run only); kernel semantics in "
             "coq/C15/Spec.v; harness (virtual kernel/clock, fake /proc, Python transcription of the oracle); CPython, IEEE doubles. "
             "Wall-clock behaviour is outside the model.",
 }
